@@ -138,7 +138,10 @@ _p('C03', 'exploration',
     Part('graph', {'props': ['C03'], 'ifaces_only': True}, configs=[(C, 1), (PY, 1)], quick=5000, thorough=150000, name='graph/C03/ifaces'),
     Part('graph', {'props': ['C03']}, configs=[(C_STRICT, 1), (PY_STRICT, 1)], quick=6000, thorough=200000, name='graph/C03/strict'),
     Part('graph', {'props': ['C03']}, configs=[(C_LEGACY, 1), (PY_LEGACY, 1)], quick=4000, thorough=100000, name='graph/C03/legacy'),
-    Part('graph', {'props': ['C03']}, configs=[(C_STRICT_TRACK, 1), (PY_TRACK, 1)], quick=3000, thorough=80000, name='graph/C03/track')],
+    Part('graph', {'props': ['C03']}, configs=[(C_STRICT_TRACK, 1), (PY_TRACK, 1)], quick=3000, thorough=80000, name='graph/C03/track'),
+    # process configuration: an interpreter that strips assert statements (python -O / PYTHONOPTIMIZE)
+    Part('graph', {'props': ['C03'], 'ifaces_only': True}, configs=[(Config('c', iro='default-O'), 1), (Config('py', iro='default-O'), 1)],
+         quick=3000, thorough=80000, name='graph/C03/optimized')],
    rule='one case = one seeded rebasing history; after every op every __sro__/__iro__ is checked for validity and against CPython\'s '
         'type.mro() of a mirrored class hierarchy (C3 oracle), ro.ro(strict=True) and ro.is_consistent against "CPython can build the '
         'mirror"; run under default, ZOPE_INTERFACE_STRICT_IRO=1 and ZOPE_INTERFACE_USE_LEGACY_IRO=1 worker configurations; '
